@@ -236,7 +236,11 @@ func (l *Lexer) shiftRawText() []byte {
 	} else { // RCDATA, RAWTEXT and SCRIPT
 		for {
 			c := l.r.Peek(0)
-			if c == '<' {
+			if 0 < len(l.tmplBegin) && l.at(l.tmplBegin...) {
+				l.r.Move(len(l.tmplBegin))
+				l.moveTemplate()
+				l.hasTmpl = true
+			} else if c == '<' {
 				if l.r.Peek(1) == '/' {
 					mark := l.r.Pos()
 					l.r.Move(2)
@@ -296,10 +300,6 @@ func (l *Lexer) shiftRawText() []byte {
 				} else {
 					l.r.Move(1)
 				}
-			} else if 0 < len(l.tmplBegin) && l.at(l.tmplBegin...) {
-				l.r.Move(len(l.tmplBegin))
-				l.moveTemplate()
-				l.hasTmpl = true
 			} else if c == 0 && l.r.Err() != nil {
 				return l.r.Shift()
 			} else {
